@@ -4,6 +4,7 @@
 package parser
 
 import (
+	"errors"
 	"fmt"
 
 	goerrors "github.com/ajitpratap0/GoSQLX/pkg/errors"
@@ -29,6 +30,9 @@ func (p *Parser) parseWithStatement() (ast.Statement, error) {
 	for {
 		cte, err := p.parseCommonTableExpr()
 		if err != nil {
+			if isRecursionLimit(err) {
+				return nil, err // a limit violation keeps its own code
+			}
 			return nil, goerrors.InvalidCTEError(
 				fmt.Sprintf("error parsing CTE definition: %v", err),
 				models.Location{},
@@ -101,10 +105,11 @@ func (p *Parser) parseCommonTableExpr() (*ast.CommonTableExpr, error) {
 	defer func() { p.depth-- }()
 
 	if p.depth > MaxRecursionDepth {
-		return nil, goerrors.InvalidCTEError(
+		// a limit violation, not a malformed CTE: report it with the recursion limit code
+		return nil, goerrors.NewError(
+			goerrors.ErrCodeRecursionDepthLimit,
 			fmt.Sprintf("maximum recursion depth exceeded (%d) - CTE too deeply nested", MaxRecursionDepth),
 			models.Location{},
-			"",
 		)
 	}
 
@@ -183,6 +188,9 @@ func (p *Parser) parseCommonTableExpr() (*ast.CommonTableExpr, error) {
 	}
 
 	if err != nil {
+		if isRecursionLimit(err) {
+			return nil, err // a limit violation keeps its own code
+		}
 		return nil, goerrors.InvalidCTEError(
 			fmt.Sprintf("error parsing CTE subquery: %v", err),
 			models.Location{},
@@ -221,4 +229,10 @@ func (p *Parser) parseMainStatementAfterWith() (ast.Statement, error) {
 		return p.parseDeleteStatement()
 	}
 	return nil, p.expectedError("SELECT, INSERT, UPDATE, or DELETE after WITH")
+}
+
+// isRecursionLimit reports whether err is the nesting-limit error (E2007).
+func isRecursionLimit(err error) bool {
+	var e *goerrors.Error
+	return errors.As(err, &e) && e != nil && e.Code == goerrors.ErrCodeRecursionDepthLimit
 }
